@@ -17,8 +17,8 @@ def entVals (h : Heap H) (l : List (Name × Id)) : List (EntryV H) :=
 def dirEntries (h : Heap H) (n : Id) : List (EntryV H) := sortE (entVals h (h.get n).children)
 
 /-- the `(name, hash)` list the hash of `n` is computed from -/
-def hashKids (h : Heap H) (n : Id) : List (Name × H) :=
-  (if (h.get n).isDir then dirEntries h n else entVals h (h.get n).children).map EntryV.kv
+def hashKids (h : Heap H) (n : Id) : List (EntryV H) :=
+  (if (h.get n).isDir then dirEntries h n else entVals h (h.get n).children)
 
 def kidsCached (h : Heap H) (n : Id) : Prop := ∀ c ∈ kids h n, (h.get c).cache ≠ none
 
@@ -54,7 +54,7 @@ theorem vals_eq {h h' : Heap H} (s : SameStruct h h') (n : Id)
 
 /-! ### the invariant -/
 
-variable (hashFn : Data → List (Name × H) → H)
+variable (hashFn : Data → List (EntryV H) → H)
 
 /-- The invariant of C10 (and the heap part of C14's).
 * `closure` (I1): a node holding any cache (hash, entries, model) has only cached children;
@@ -205,7 +205,7 @@ theorem Grows0.vals {a b : Heap H} (g : Grows0 a b) (n : Id) (hk : kidsCached a 
   Merkle.vals_eq g.toSameStruct n (fun c hc => g.cache_ne c (hk c hc))
 
 /-- every cache that is new in `h'` holds the value computed from the (cached) children -/
-structure NewOK (hashFn : Data → List (Name × H) → H) (h h' : Heap H) : Prop where
+structure NewOK (hashFn : Data → List (EntryV H) → H) (h h' : Heap H) : Prop where
   cache : ∀ n v, (h'.get n).cache = some v → (h.get n).cache = none →
     kidsCached h n ∧ v = hashFn (h.get n).data (hashKids h n)
   ent : ∀ n e, (h'.get n).entriesCache = some e → (h.get n).entriesCache = none →
